@@ -429,6 +429,11 @@ struct Checker {
     if (stop) return;
     long long i = index++;
     if ((i & 4095) == 0 && args.overBudget()) { stop = true; res.exhaustive = false; return; }
+    if (enumx::progressPage) {
+      // crash attribution: a short description of the item in progress (kind, sizes)
+      snprintf(enumx::progressPage, 4000, "%s kind=%d name-length=%zu data-length=%zu list-items=%zu", d.isKey ? "key" : "value", d.kind,
+               d.name.size(), d.data.size(), d.list.size());
+    }
     std::string bytes = encode(d);
     std::string mapKey = (d.isKey ? "K" : "V") + bytes;  // keys and values live in different stores
     bool ownIndex = verbose || (int)(i % args.nshards) == args.shard;
@@ -561,6 +566,27 @@ void enumerate(bool thorough, Emit&& emit) {
         for (auto& l : filterLists) { d.list = l; emit(d); }
       } else emit(d);
     }
+  }
+  // ---- long names: lengths whose little-endian size bytes have the high bit set or carry into the next byte
+  {
+    std::vector<int> lens{127, 128, 129, 255, 256, 257, 300, 32767, 32768};
+    if (thorough) { lens.push_back(65535); lens.push_back(65536); lens.push_back(1 << 20); }
+    for (KK k : kKeyKinds)
+      for (int L : lens)
+        for (char c : {'a', (char)0xff}) {
+          Desc d;
+          d.isKey = true; d.kind = (int)k; d.name = std::string((size_t)L, c);
+          d.name[L / 2] = '/';
+          if (k == KK::CustomTask) {
+            d.hasData = true;
+            for (auto& dt : {std::string(""), std::string("a"), std::string((size_t)L, 'd')}) { d.data = dt; emit(d); }
+          } else if (k == KK::FilteredDirectoryContents || k == KK::DirectoryTreeSignature || k == KK::DirectoryTreeStructureSignature) {
+            d.hasList = true;
+            for (size_t i = 0; i < filterLists.size() && i < 4; ++i) { d.list = filterLists[i]; emit(d); }
+            d.list = {std::string((size_t)L, 'f')};
+            emit(d);
+          } else emit(d);
+        }
   }
   // ---- values
   auto F = fileInfosSmall();
